@@ -17,7 +17,7 @@ RULE = ("each case: format, k<=3, N<=6, 1-12 servers with a drawn behaviour each
         "fails with the system quiescent is reported as HANG. Non-trivial = a publish during which at least one write failed or was unacknowledged; distinct by whole case.")
 LEVEL_TEXT = "Fault-plan and schedule search with wire-level ground truth for what was acknowledged."
 ASSUMPTIONS = ["one writer (concurrent writers are C12)", "injected failures strike the write call (slot_testv_and_readv_and_writev); reads used by the survey succeed unless the server is down/disconnected"]
-REQUIRED_CLASSES = ["success", "error", "success-with-failed-writes", "acked==k", "update", "create-under-faults", "mdmf", "sdmf", "fault-applied-but-unacked"]
+REQUIRED_CLASSES = ["stale-survey-publish", "success", "error", "success-with-failed-writes", "acked==k", "update", "create-under-faults", "mdmf", "sdmf", "fault-applied-but-unacked"]
 BUDGET = {"quick": 900, "thorough": 7200}
 KINDS = ["ok", "ok", "ok", "fail-write", "fail-write-nth", "dead-write", "dead-write-nth", "applied-unacked", "disconnect", "late", "down"]
 W = "slot_testv_and_readv_and_writev"
@@ -42,7 +42,12 @@ def cases(draw):
     return {"hsalt": draw(st.integers(0, 15)), "threads": draw(st.sampled_from(["sync", "async"])), "fmt": draw(st.sampled_from(["sdmf", "mdmf"])), "k": k, "n": n, "seg": seg, "size": draw(st.integers(0, 5 * seg)),
             "planA": draw(st.one_of(st.none(), st.just(0).map(lambda _: fplan()))), "planB": fplan(),
             "op": draw(st.sampled_from(["overwrite", "update", "update-append"])), "size2": draw(st.integers(1, 3 * seg)),
-            "sched": draw(st.lists(st.integers(0, 9), max_size=draw(st.sampled_from([0, 40, 200]))))}
+            "sched": draw(st.lists(st.integers(0, 9), max_size=draw(st.sampled_from([0, 40, 200])))),
+            "interloper": draw(st.sampled_from([None, None, None, 1])) and {"down": draw(st.lists(st.integers(0, 11), max_size=3)), "gone": draw(st.lists(st.integers(0, 11), max_size=4)), "template": draw(st.sampled_from([0, 1, 2, 3])), "size": draw(st.integers(1, 3 * seg))}}
+
+
+class _Done(Exception):
+    pass
 
 
 def run_shard(spec, ctx):
@@ -173,6 +178,66 @@ def run_case(case, ctx):
         verify(contents, desc)
         prev[0] = contents
         new = pbytes(5, case["size2"])
+        if case.get("interloper"):
+            # "...and no unexpected version was encountered": the writer surveys, another write-cap holder then publishes its own version (some servers
+            # unreachable for it), and the writer publishes from its now stale survey.  If it reports success, no write it got applied may have hit a share
+            # in a state other than the one its survey was shown.
+            from vf.clobber import ClobberMonitor
+            from allmydata.mutable.common import MODE_WRITE
+            from allmydata.mutable.publish import Publish
+            install(g, None)
+            # servers that left the grid for good after the file was created: both writers must find new homes for the shares those held
+            gone = set(x % nserv for x in case["interloper"].get("gone", []))
+            if len(gone) >= nserv:
+                gone = set(sorted(gone)[:nserv - 1])
+            bdown = [x % nserv for x in case["interloper"]["down"]][:max(0, nserv - 1 - len(gone))]
+            after_b_down = set()
+            if case["interloper"].get("template"):
+                # one share holder leaves for good; the interloper reaches none of the remaining holders, so it re-homes every share onto the spare servers;
+                # the writer, who does reach them, then re-homes the departed holder's shares onto the same spare servers
+                holders = sorted(set(sidx for (sidx, shn, p_) in g.all_share_paths(node.get_storage_index())))
+                spare = [s_.idx for s_ in g.servers if s_.idx not in holders]
+                if holders and spare:
+                    gone = set(holders[:1 + case["interloper"]["template"] % max(1, len(holders) - 1)]) if len(holders) > 1 else set()
+                    rest = [h_ for h_ in holders if h_ not in gone]
+                    breach = rest[:k]                      # the interloper needs k shares to have a version to supersede
+                    bdown = rest[k:]
+                    after_b_down = set(breach)            # ...and those holders are unreachable when the writer publishes
+                    if case["interloper"]["template"] >= 2:
+                        gone |= set(spare[1:])           # a single spare server: both writers must re-home onto it
+                    classes.add("stale-survey-publish-template")
+            for s_ in g.servers:
+                s_.down = s_.idx in gone
+            if gone:
+                classes.add("stale-survey-publish-with-homeless-shares")
+            mon = ClobberMonitor(g)
+            smr = g.run(node.get_servermap(MODE_WRITE))
+            if smr[0] != "ok":
+                return
+            B = g.add_client()
+            nodeB = B.nodemaker.create_from_cap(cap)
+            for s_ in g.servers:
+                s_.down = s_.idx in gone or s_.idx in bdown
+            rB = g.run(nodeB.overwrite(mutfile.mdata(pbytes(7, case["interloper"]["size"]))))
+            for s_ in g.servers:
+                if s_.idx not in gone and s_.idx not in after_b_down:
+                    s_.down = False
+                    s_.reconnect()
+                elif s_.idx in after_b_down:
+                    s_.down = True
+            nprob = len(mon.problems)
+            g.sched.choices, g.sched.ci = list(case["sched"]), 0
+            rA = g.sched.run_until(Publish(node, g.c0.broker, smr[1]).publish(mutfile.mdata(new)), maxsteps=20000)
+            g.sched.settle()
+            hist.append(("servers %r left for good; interloper overwrite while %r were unreachable for it" % (sorted(gone), sorted(set(bdown))), rB[0] if rB[0] != "err" else type(rB[1]).__name__))
+            hist.append(("publish from the survey taken before that", rA[0] if rA[0] != "err" else type(rA[1]).__name__))
+            classes.add("stale-survey-publish")
+            classes.add("stale-survey-publish:" + (rA[0] if rA[0] != "err" else type(rA[1]).__name__))
+            if rA[0] == "ok" and rB[0] == "ok":
+                mine = [pr for pr in mon.problems[nprob:] if pr.startswith("client %d " % g.c0.idx)]
+                ctx.check(not mine, "success-over-unexpected-version", "fmt=%s k=%d N=%d servers=%d history=%r: the publish reported success although %s" % (fmt, k, n, nserv, hist, "; ".join(mine[:2])), n=len(mine))
+                nt = True
+            raise _Done()
         if case["op"] == "overwrite" or len(contents) == 0:
             want = new
             start = lambda: node.overwrite(mutfile.mdata(new))
@@ -191,6 +256,8 @@ def run_case(case, ctx):
         r, desc = publish("%s(%d bytes)" % (case["op"], len(new)), case["planB"], start)
         if r[0] == "ok":
             verify(want, desc)
+    except _Done:
+        pass
     finally:
         g.stop()
         mutfile.restore_segsize()
